@@ -11,6 +11,10 @@ def key_fn(case, obs, verdict):
         return "waiter-over-startup-profile:%s" % v
     if f[0] == "drain":
         return "startup-profile-self-started:%s" % v
+    if f[0] == "count":
+        return "startup-profile-token-count:%s" % v
+    if f[0] == "cfg":
+        return "pool-from-config:%s" % v
     if f[0] == "fincb":
         kind = "unlimited" if f[1].startswith("unl:") else "finite"
         return "rps-finish-callback:%s-schedule:fired-before-end-or-not-once" % kind
